@@ -681,7 +681,8 @@ pub proof fn lemma_restamped_prefix(old: World, a: World, b: World, mb: Seq<Cach
     au.desugar_for(0, itvar='kw_it1', into_iter=True,
                    after_init='let ghost mut k1: int = 0;', after_next='proof { k1 = k1 + 1; } ')
     au.loop_contract(0, invariant=[
-        ('', 'old(w).inv() && w.inv() && w.kept(*old(w)) && pbv(cached) == dir && w.cache_dirs.contains(dir) && ev == update.to_evict@ && mb == update.to_move_back@'),
+        ('C07 C17 C16:the-scratch-path-names-the-directory-again-after-every-item', 'pbv(cached) == dir'),
+        ('', 'old(w).inv() && w.inv() && w.kept(*old(w)) && w.cache_dirs.contains(dir) && ev == update.to_evict@ && mb == update.to_move_back@'),
         ('', '0 <= k1 <= ev.len() && vstd::std_specs::iter::IteratorSpec::remaining(&kw_it1) == ev.skip(k1) && vstd::std_specs::iter::IteratorSpec::obeys_prophetic_iter_laws(&kw_it1)'),
         ('', '(forall|n: Seq<u8>| !w.under_ro(#[trigger] child(dir, n))) && evictable_records(ev, dir) && evictable_records(mb, dir)'),
         ('C07 C17 C02:maintenance-frame-on-every-exit', 'maint_frame(*old(w), *w, ev, mb) && w.inodes == old(w).inodes && w.now == old(w).now'),
@@ -701,7 +702,8 @@ pub proof fn lemma_restamped_prefix(old: World, a: World, b: World, mb: Seq<Cach
     au.desugar_for(1, itvar='kw_it2', into_iter=True,
                    after_init='let ghost mut k2: int = 0;', after_next='proof { k2 = k2 + 1; } ')
     au.loop_contract(1, invariant=[
-        ('', 'old(w).inv() && w.inv() && w.kept(*old(w)) && pbv(cached) == dir && w.cache_dirs.contains(dir) && ev == update.to_evict@ && mb == update.to_move_back@'),
+        ('C07 C17 C16:the-scratch-path-names-the-directory-again-after-every-item', 'pbv(cached) == dir'),
+        ('', 'old(w).inv() && w.inv() && w.kept(*old(w)) && w.cache_dirs.contains(dir) && ev == update.to_evict@ && mb == update.to_move_back@'),
         ('', '0 <= k2 <= mb.len() && vstd::std_specs::iter::IteratorSpec::remaining(&kw_it2) == mb.skip(k2) && vstd::std_specs::iter::IteratorSpec::obeys_prophetic_iter_laws(&kw_it2)'),
         ('', '(forall|n: Seq<u8>| !w.under_ro(#[trigger] child(dir, n))) && evictable_records(ev, dir) && evictable_records(mb, dir)'),
         ('C07 C17 C02:maintenance-frame-on-every-exit', 'maint_frame(*old(w), *w, ev, mb) && w.files == w1.files'),
